@@ -67,3 +67,11 @@ package blobclient
 //@   modifies *
 //@   ensures success_means_an_origin_took_it: err == nil ==> (exists cl Client :: (d.hex in cl.uploaded))
 //@   loop 0 invariant failed_so_far: (rangeindex >= 0 ==> err != nil) && 0 - 1 <= rangeindex && rangeindex < len(clients) && len(clients) >= 1 && (forall j int :: 0 <= j && j < len(clients) ==> clients[j] != nil) && blob != nil
+
+// The single-origin client (C35): a download whose body copy failed - the origin dropped the
+// connection part-way, or the destination refused a write - is never reported as a success. (What
+// the origin sends, and that io.Copy writes through dst.Write only, stay assumed:
+// contracts/externs/clients.spec.)
+//@ func HTTPClient.DownloadBlob
+//@   modifies *
+//@   ensures failed_copy_is_an_error: dst.copyfail ==> result != nil
